@@ -150,17 +150,57 @@ theorem fast_check_deps_when (key : Spec) (m : Mod) :
 
 /-! ## the error listing -/
 
+/-- an error *attached* to a visited entry `(x, e)`: one the entry contributes in place, or — for
+a missing entry visited while dynamic imports are followed — the entry's own error, which is
+listed when no visited import surfaced that entry in place -/
+def Attached (x : Spec) (e : Entry) (err : ErrOut) : Prop :=
+  err ∈ entryErrors g o x e ∨
+  (o.followDynamic = true ∧ ∃ code es, e = .err true code es ∧ err = .moduleErr code ∧
+    ¬ ∃ y ey, Enq g o (fun _ => false) roots y ∧ yieldOf g o y = some ey ∧ x ∈ entrySurfaced g o y ey)
+
+theorem mem_surfacedIn (hnd : roots.Nodup) (k : Spec) :
+    k ∈ surfacedIn g o (g.walk o roots) ↔
+      ∃ y ey, Enq g o (fun _ => false) roots y ∧ yieldOf g o y = some ey ∧ k ∈ entrySurfaced g o y ey := by
+  simp only [surfacedIn, List.mem_flatMap]
+  constructor
+  · rintro ⟨⟨y, ey⟩, hm, hk⟩
+    obtain ⟨h1, h2⟩ := (walk_eq_visits g o (fun _ => false) roots hnd y ey).mp hm
+    exact ⟨y, ey, h1, h2, hk⟩
+  · rintro ⟨y, ey, h1, h2, hk⟩
+    exact ⟨(y, ey), (walk_eq_visits g o (fun _ => false) roots hnd y ey).mpr ⟨h1, h2⟩, hk⟩
+
+theorem deferredError_eq_some (sf : List Spec) (x : Spec) (e : Entry) (err : ErrOut) :
+    deferredError o sf (x, e) = some err ↔
+      (o.followDynamic = true ∧ ∃ code es, e = .err true code es ∧ err = .moduleErr code ∧ x ∉ sf) := by
+  cases e with
+  | module m => simp [deferredError]
+  | redirect t => simp [deferredError]
+  | err mi c es =>
+    cases mi
+    · simp [deferredError]
+    · simp only [deferredError]
+      by_cases hf : o.followDynamic = true <;> by_cases hx : x ∈ sf <;>
+        simp [hf, hx, eq_comm]
+
 /-- **the error listing contains precisely the errors attached to what the walk visited** -/
 theorem errors_eq_attached (hnd : roots.Nodup) (err : ErrOut) :
     err ∈ g.errors o roots ↔
-      ∃ x e, Enq g o (fun _ => false) roots x ∧ yieldOf g o x = some e ∧ err ∈ entryErrors g o x e := by
-  simp only [Graph.errors, List.mem_flatMap, List.mem_reverse]
+      ∃ x e, Enq g o (fun _ => false) roots x ∧ yieldOf g o x = some e ∧ Attached g o roots x e err := by
+  simp only [Graph.errors, List.mem_append, List.mem_flatMap, List.mem_reverse, List.mem_filterMap,
+    Attached]
   constructor
-  · rintro ⟨⟨x, e⟩, hm, he⟩
-    obtain ⟨h1, h2⟩ := (walk_eq_visits g o (fun _ => false) roots hnd x e).mp hm
-    exact ⟨x, e, h1, h2, he⟩
-  · rintro ⟨x, e, h1, h2, he⟩
-    exact ⟨(x, e), (walk_eq_visits g o (fun _ => false) roots hnd x e).mpr ⟨h1, h2⟩, he⟩
+  · rintro (⟨⟨x, e⟩, hm, he⟩ | ⟨⟨x, e⟩, hm, he⟩)
+    · obtain ⟨h1, h2⟩ := (walk_eq_visits g o (fun _ => false) roots hnd x e).mp hm
+      exact ⟨x, e, h1, h2, Or.inl he⟩
+    · obtain ⟨h1, h2⟩ := (walk_eq_visits g o (fun _ => false) roots hnd x e).mp hm
+      obtain ⟨hf, code, es, he1, he2, hns⟩ := (deferredError_eq_some o _ x e err).mp he
+      exact ⟨x, e, h1, h2, Or.inr ⟨hf, code, es, he1, he2,
+        fun hex => hns ((mem_surfacedIn g o roots hnd x).mpr hex)⟩⟩
+  · rintro ⟨x, e, h1, h2, (he | ⟨hf, code, es, he1, he2, hns⟩)⟩
+    · exact Or.inl ⟨(x, e), (walk_eq_visits g o (fun _ => false) roots hnd x e).mpr ⟨h1, h2⟩, he⟩
+    · exact Or.inr ⟨(x, e), (walk_eq_visits g o (fun _ => false) roots hnd x e).mpr ⟨h1, h2⟩,
+        (deferredError_eq_some o _ x e err).mpr ⟨hf, code, es, he1, he2,
+          fun hm => hns ((mem_surfacedIn g o roots hnd x).mp hm)⟩⟩
 
 /-! ## non-vacuity: a concrete graph with a redirect, a types dependency and a dynamic edge -/
 
